@@ -53,6 +53,35 @@ def op_term(o):
     return OPN[c]
 
 
+def input_term(r):
+    return hist_term(r, None)
+
+
+def flat_term(r):
+    """compact encoding decoded by GrowRun.decode_ops: key table + flat list of small numbers"""
+    def chunked(items):
+        if not items:
+            return "[]"
+        return "(" + " ++ ".join("[" + ";".join(items[i:i + 120]) + "]" for i in range(0, len(items), 120)) + ")"
+    cfg = "mkC %s %d %s %s %d true %s" % (coq_bool(r["nil"]), r["hint"], coq_bool(r["refl"]), coq_bool(r["upd"]), r["seed"],
+                                          coq_bool(r.get("ptr", False)))
+    idx, kf, of = {}, [], []
+    for c, a, b in r["ops"]:
+        if c in (0, 1, 2, 3):
+            if a not in idx:
+                idx[a] = len(idx)
+                kf += [str(a >> 56), str((a >> 54) & 3), str((a >> 16) & ((1 << 38) - 1)), str(a & 0xffff)]
+            of.append(str(c))
+            of.append(str(idx[a]))
+            if c == 0:
+                of.append(str(b))
+        elif c in (6, 7):
+            of += [str(c), str(a)]
+        else:
+            of.append(str(c))
+    return "(%s, %s, %s, %s)" % (cfg, chunked(kf), chunked(of), coq_bool(not r["nil"]))
+
+
 def hist_term(r, res):
     # c_memclr = true: the model of the code that exists (memclr* clear memory)
     cfg = "mkC %s %d %s %s %d true %s" % (coq_bool(r["nil"]), r["hint"], coq_bool(r["refl"]), coq_bool(r["upd"]), r["seed"],
@@ -64,7 +93,23 @@ def hist_term(r, res):
         return "(" + " ++ ".join("[" + "; ".join(items[i:i + 100]) + "]" for i in range(0, len(items), 100)) + ")"
     ops = chunked([op_term(o) for o in r["ops"]])
     chk = not r["nil"]
+    if res is None:
+        return "(%s, %s, %s)" % (cfg, ops, coq_bool(chk))
     return "((%s, %s, %s), %s)" % (cfg, ops, coq_bool(chk), chunked([res_term(o, x) for o, x in zip(r["ops"], res)]))
+
+
+HM = (1 << 61) - 1
+
+
+def trace_hash(rows):
+    """same function as GrowRun.trace_hash"""
+    h = 1
+    for row in rows:
+        a = (h * 1000003 + 7) % HM
+        for x in row:
+            a = (a * 1000003 + x + 1) % HM
+        h = a
+    return h
 
 
 def observable(r):
@@ -149,7 +194,7 @@ def run(ck):
         ck.correspondence_broken("scratch-module", err)
         return ck.finish()
 
-    n, nbig, ntyped = {"quick": (140, 3, 40), "thorough": (4000, 60, 400)}[ck.tier]
+    n, nbig, ntyped = {"quick": (140, 2, 40), "thorough": (4000, 60, 400)}[ck.tier]
     nheavy = {"quick": 3, "thorough": 60}[ck.tier]
     jobs = [("random", os.path.join(ck.work, "ctl.jsonl"), {"VERIF_N": str(n), "VERIF_NBIG": str(nbig), "VERIF_NHEAVY": str(nheavy)}),
             ("typed", os.path.join(ck.work, "typed.jsonl"), {"VERIF_N": str(ntyped)}),
@@ -197,17 +242,24 @@ def run(ck):
 
     # ---- model vs implementation (exact traces, internal state included) ----
     hdr = "From LLGoV Require Import C06.Model C06.Simple C06.SimpleRun C06.Grow C06.GrowRun.\nLocal Open Scope N_scope.\n"
-    order = sorted(range(len(hists)), key=lambda i: -len(hists[i]["ops"]))   # spread the big ones over shards
+    # balance the 16 parallel coqc shards: longest histories first, each into the lightest shard
+    # that still has room (coq_mismatches cuts the list into consecutive runs of shard_n cases)
+    order = sorted(range(len(hists)), key=lambda i: -len(hists[i]["ops"]))
     shard_n = max(1, (len(order) + 15) // 16)
-    inter = []
-    for s in range(shard_n):
-        inter += order[s::shard_n]
+    nbins = max(1, (len(order) + shard_n - 1) // shard_n)
+    caps = [shard_n] * (nbins - 1) + [len(order) - shard_n * (nbins - 1)]
+    bins, load = [[] for _ in range(nbins)], [0] * nbins
+    for i in order:
+        b = min((j for j in range(nbins) if len(bins[j]) < caps[j]), key=lambda j: load[j])
+        bins[b].append(i)
+        load[b] += len(hists[i]["ops"]) + 30
+    inter = [i for b in bins for i in b]
     hs = [hists[i] for i in inter]
-    terms = ["(%s, @nil N)" % hist_term(r, r["res"]) for r in hs]
+    terms = ["((%s, (%d, %d)), @nil N)" % (flat_term(r), trace_hash(r["res"]), trace_hash(observable(r))) for r in hs]
     # one pass: heap-level model (exact trace) and layer-1 model (API-level projection)
     import time
     t_coq = time.time()
-    bad = ck.coq_mismatches(hdr, terms, "check_all", "codes_eqb", "c06_all", shard=shard_n)
+    bad = ck.coq_mismatches(hdr, terms, "check_flat", "codes_eqb", "c06_all", shard=shard_n)
     ck.log("model evaluation of %d histories: %.1fs (started %.1fs into the run)" % (len(hs), time.time() - t_coq, t_coq - ck.t0))
     fidelity_bad = 0
     if bad:
@@ -231,6 +283,20 @@ def run(ck):
                 ck.correspondence_broken(name, {"n_mismatch": len(idxs), "class": first["class"],
                                                 "config": {k: first.get(k) for k in ("nil", "hint", "refl", "upd", "seed", "ptr")},
                                                 "ops": first["ops"][:400], "res": first["res"][:400]})
+    # growth reached by the layer-2 replays (its own triggers): a sample of short histories
+    grow_cov = {}
+    try:
+        import re as _re
+        samp = [r for r in hs if not r["nil"] and len(r["ops"]) <= 400][:40]
+        body = hdr + "Definition xs := [\n" + ";\n".join(flat_term(r) for r in samp) + "\n]%N.\n" + \
+            "Definition S := Eval vm_compute in map (fun x : config * list N * list N * bool => let '(c, kf, of, chk) := x in " \
+            "grow_stats_of (c, decode_ops (decode_keys kf 0 (PositiveMap.empty N)) of, chk)) xs.\nPrint S.\n"
+        rc_s, out_s = ck.coq_run("From Coq Require Import FMapPositive.\n" + body, "c06_growstats", timeout=300)
+        trip = _re.findall(r"\((\d+), (\d+), (\d+)\)", out_s)
+        grow_cov = {"sampled_histories": len(samp), "with_growth": sum(1 for t in trip if int(t[1]) > 0),
+                    "with_same_size_growth": sum(1 for t in trip if int(t[2]) > 0), "maxB": max([int(t[0]) for t in trip] or [0])}
+    except Exception as ex:                     # noqa: BLE001
+        grow_cov = {"error": repr(ex)}
     try:
         e2e_res = e2e_future.result(timeout=1500)
     except Exception as ex:                     # noqa: BLE001
@@ -261,6 +327,7 @@ def run(ck):
         cov["typed_nan_keys"] += r["nans"]
         cov["typed_maxB"] = max(cov["typed_maxB"], r["maxB"])
     ck.add_cov(evaluations=nops, nontrivial=len(hists) + len(typed) + len(oracle_only), classes=dict(classes), reached=dict(cov))
+    ck.cov["layer2_growth_in_replays"] = grow_cov
     ck.cov["e2e"] = e2e_res
     ck.add_cov(evaluations=e2e_res["cases"])
     ck.cov["fidelity"] = {"histories": len(hists), "exact_trace_agreement": len(hists) - fidelity_bad,
